@@ -18,5 +18,7 @@ PROPERTY AssignedIsStored
 PROPERTY Frame
 PROPERTY RefusedChangesNothing
 PROPERTY ReopenShowsFile
+PROPERTY SessionKeepsFile
+PROPERTY ResumeKeepsObject
 INVARIANT ExportState
 ACTION_CONSTRAINT ExportTrans
